@@ -4,7 +4,7 @@
 From Coq Require Import List Ascii String NArith ZArith QArith Bool.
 From LS Require Import Model.Bytes Model.Sx Model.Tags Gen.Consts
   Model.Quote Model.Framing Model.Keepalive Model.Codec Model.Readers Model.AriSpec
-  Model.EntryWire Model.EntryReply Model.EntryItem Model.EntrySender.
+  Model.EntryWire Model.EntryReply Model.EntryItem Model.EntrySender Model.EntryShell.
 Import ListNotations.
 
 Definition un_Q (x : sx) : option Q :=
@@ -104,6 +104,8 @@ Definition entry (x : sx) : sx :=
       else if head_is "item_run" h then e_item_run args
       else if head_is "sender_run" h then e_sender_run args
       else if head_is "outbound_run" h then e_outbound_run args
+      else if head_is "shell_run" h then e_shell_run args
+      else if head_is "pool_size" h then e_pool_size args
       else match entry_reply h args with
            | Some r => r
            | None => sx_err "unknown function"
